@@ -375,9 +375,9 @@ class Client(base_client.BaseClient):
             self._connect_event.set()
 
     def _handle_disconnect(self, namespace):
-        if not self.connected:
-            return
         namespace = namespace or '/'
+        if not self.connected and namespace not in self.namespaces:
+            return
         self._trigger_event('disconnect', namespace,
                             self.reason.SERVER_DISCONNECT)
         self._trigger_event('__disconnect_final', namespace)
